@@ -173,7 +173,9 @@ PROPS = {
     },
     "C17": {
         "lean_modules": ["Props.Gen17", "Props.Facts17", "Props.GenT17"],
-        "groups": [{"name": "C17", "quick": 8000, "thorough": 300000}],
+        "groups": [{"name": "C17", "quick": 8000, "thorough": 300000},
+                   # the floating-point operations the translated GetNumber is interpreted with, against Go's own
+                   {"name": "F64", "quick": 4000, "thorough": 400000}],
         "rule": "JSON documents with null/bool/number/string/array/object under keys k, m, z (numbers from an edge pool around 0, +-1, 2^53, 2^63, 2^64, subnormals, huge exponents, random bit patterns and integers around powers of two; strings with control characters, timestamps, URLs, media types) x every accessor x present/absent keys; "
                 "non-trivial = the key is present in the document; distinct by op content",
         "trusted": ["encoding/json decoding (the model starts from the decoded value, shipped as a typed tree with IEEE bit patterns)",
@@ -331,7 +333,7 @@ MANIFEST_TEXT = {
         "technique": "Lean 4 proof (induction over the wrap state machine) + differential correspondence",
     },
     "C17": {
-        "text": "Lean theorems for all JSON values, keys and accessors: each accessor returns exactly absent (missing/null/empty), wrong (other type/unparseable/out of range) or the faithful value; GetNumber returns n iff the double's exact value (computed from its bit pattern with integer arithmetic) is the natural number n < 2^64. Tied to object.go twice: GetAny, GetString, GetObject, GetList, GetTime, GetURL, GetMediaType and the getPrimitive instances they use are translated to Lean on every run (extract/go2lean3.go -> Generated/GoObject.lean) and proved equal to the model's accessors (Props/Gen17.lean); and (all accessors, GetNumber and GetMarkup included, and mime.go) by differential correspondence on values decoded by the real encoding/json; number exactness, empty-means-absent and sanitisation are also checked on every implementation output.",
+        "text": "Lean theorems for all JSON values, keys and accessors: each accessor returns exactly absent (missing/null/empty), wrong (other type/unparseable/out of range) or the faithful value; GetNumber returns n iff the double's exact value (computed from its bit pattern with integer arithmetic) is the natural number n < 2^64. Tied to object.go twice: GetAny, GetString, GetNumber (its floating-point operations interpreted on bit patterns, and those interpretations compared with Go's own arithmetic on every run), GetObject, GetList, GetTime, GetURL, GetMediaType and the getPrimitive instances they use are translated to Lean on every run (extract/go2lean3.go -> Generated/GoObject.lean) and proved equal to the model's accessors (Props/Gen17.lean); and (all accessors, GetMarkup included, and mime.go) by differential correspondence on values decoded by the real encoding/json; number exactness, empty-means-absent and sanitisation are also checked on every implementation output.",
         "design_ref": "DESIGN.md §5 C17",
         "note": "Trusted: Lean kernel; correspondence check (testing); encoding/json, time.Parse, url.Parse as parameters/oracle tables.",
         "technique": "Lean 4 proof (case analysis over a JSON datatype, bit-exact IEEE-754 model) over a model proved equal to the Lean translation of the accessors regenerated on every run + differential correspondence",
